@@ -549,6 +549,12 @@ func (f *Composite) wrapErrorUnpack(src []byte, isVariableLength bool) (int, err
 }
 
 func (f *Composite) unpack(data []byte, isVariableLength bool) (int, string, error) {
+	// the subfields set after unpacking are those found in data, whatever
+	// was set or unpacked into this composite before: start from fresh
+	// subfields so that no earlier value (or nested subfield) survives
+	f.subfields = CreateSubfields(f.spec)
+	f.setSubfields = make(map[string]struct{})
+
 	if f.bitmap() != nil {
 		return f.unpackSubfieldsByBitmap(data)
 	}
